@@ -282,6 +282,9 @@ def rule_order(repo: Repo) -> RuleResult:
                 for x in p.trace(n.iter):
                     if "attr:signature" in x and any(s.startswith(bad_steps) for s in x):
                         offenders.append(unparse(n.iter, 50))
+                    # regrouped: the parameters were sorted into per-key groups of a local dict and are printed group by group
+                    if "attr:signature" in x and any(s.startswith("in:") and "[]@" in s for s in x):
+                        offenders.append(unparse(n.iter, 50) + " (regrouped)")
             if isinstance(n, ast.Call) and callee_name(n) == "join" and n.args:
                 for x in p.trace(n.args[0]):
                     if "attr:signature" in x and any(s.startswith(bad_steps) for s in x):
@@ -309,6 +312,17 @@ def rule_options(repo: Repo) -> RuleResult:
                 r.site(L.site(f, c, "nested print"))
                 r.fail(Finding("C08.options", f, "call:str(operand)", f"{unparse(c)} prints a nested condition with the default options "
                                f"(should_simplify=True, decimal_digits=2) instead of the ones requested", node=c))
+        if isinstance(c.func, ast.Attribute) and any("attr:operands" in x for x in _safe(p, c.func.value)) and \
+                callee_name(c) not in ("__str__", "print", "copy", "to_pddl", "to_mathematical", "append", "add", "sort"):
+            # a nested condition is printed through the condition class's own entry point: a subclass that only overrides __str__
+            # (UniversalPrecondition: the quantifier header) must not be bypassed
+            m = callee_name(c)
+            bypassed = [sc for sc in repo.subclasses("Precondition") if "__str__" in repo.classes[sc].methods and m not in repo.classes[sc].methods
+                        and repo.find_method("Precondition", m) is not None]
+            if bypassed:
+                r.site(L.site(f, c, "nested print dispatch"))
+                r.fail(Finding("C08.options", f, f"bypasses-subclass-printer:{m}", f"{unparse(c, 60)} calls Precondition.{m} directly on a nested condition: "
+                               f"{bypassed} override only __str__, so their own text (e.g. the (forall (...) header) is lost", node=c))
         if callee_name(c) in ("print", "_print_self") and isinstance(c.func, ast.Attribute):
             r.site(L.site(f, c, "nested print"))
             passed = {o for o in opts for a_ in list(c.args) + [k.value for k in c.keywords] if L.is_param(p, a_, o)}
@@ -417,10 +431,10 @@ def printer_functions(repo: Repo) -> List[FuncInfo]:
     return out
 
 
-def rule_nocollapse(repo: Repo, rid: str = "C08.nocollapse") -> RuleResult:
-    r = RuleResult(rid, "a printer never funnels the elements of a collection through a dict keyed by a *part* of the element",
-                   "nothing is lost on the way to the text: two different elements with the same partial key would collapse into one")
-    fs = printer_functions(repo)
+def rule_nocollapse(repo: Repo, rid: str = "C08.nocollapse", funcs: Optional[List[FuncInfo]] = None, floor: int = 20) -> RuleResult:
+    r = RuleResult(rid, "the elements of a collection are never funnelled through a dict keyed by a *part* of the element",
+                   "nothing is lost on the way: two different elements with the same partial key would collapse into one")
+    fs = funcs if funcs is not None else printer_functions(repo)
     for f in fs:
         p = L.prov(repo, f)
         r.site(f.qn)
@@ -447,7 +461,7 @@ def rule_nocollapse(repo: Repo, rid: str = "C08.nocollapse") -> RuleResult:
                            f"overwrite each other and are missing from the text"))
         else:
             r.ok({"printer": f.qn, "dict_keyed_by_part_of_element": False})
-    r.require_sites(20)
+    r.require_sites(floor)
     return r
 
 
